@@ -43,7 +43,8 @@ META = {
     "engine": "fault",
     "text": "External.tla models pointer production (threshold, compression, sha256) and resolution (fetch -> sha "
             "check -> walk batches: nested-pointer check, log dispatch -> batch count -> schema check) with "
-            "storage-side corruptions {byte flip, truncation, substituted object, nested pointer before/after/instead of "
+            "storage-side corruptions {byte flip, truncation, substituted object (plain / with its own log batches / "
+            "with an EXCEPTION batch), nested pointer before/after/instead of "
             "the data batch, extra "
             "data batch, zero data batches, schema change} and the pointer checksum kept/stripped/forged; TLC checks "
             "the clauses and enumerates all cases; each runs on the real produce/resolve functions (unary result, "
@@ -60,10 +61,11 @@ META = {
 
 ALL_KINDS = ("unary", "collector", "header", "request")
 ALL_LAYOUTS = ("D", "LD", "LLD", "LDL")
-ALL_CORS = ("none", "flip", "trunc", "subst", "nested_before", "nested_after", "nested_only", "extra", "zero",
+ALL_CORS = ("none", "flip", "trunc", "subst", "subst_logs", "subst_exc", "nested_before", "nested_after", "nested_only", "extra", "zero",
             "schema")
-INVS = ["InvTransparent", "InvShaEnforced", "InvNoNestedPointer", "InvSingleDataBatch", "InvSchemaEnforced",
+INVS = ["InvTransparent", "InvShaEnforced", "InvNothingDeliveredBeforeAuthenticated", "InvNoNestedPointer", "InvSingleDataBatch", "InvSchemaEnforced",
         "InvCorruptNeverDelivered", "InvSane"]
+FORGED = "FORGED-BY-STORAGE"      # marks every log / error text that exists only inside a substituted object
 LAYOUT = {"D": ["D"], "LD": ["L", "D"], "LLD": ["L", "L", "D"], "LDL": ["L", "D", "L"]}
 
 
@@ -259,11 +261,24 @@ def tamper(stored: bytes, enc: str | None, cor: str, variant: int, rng: random.R
     schema, batches = _parse(raw)
     di = next(i for i, (b, cm) in enumerate(batches) if _is_data(b, cm))
     db, dcm = batches[di]
-    if cor == "subst":
+    if cor in ("subst", "subst_logs", "subst_exc"):
         cols = [pa.array([(x.as_py() or b"")[::-1] + b"!" for x in col], col.type)
                 if pa.types.is_binary(col.type) else col for col in db.columns]
         nb = [(pa.RecordBatch.from_arrays(cols, schema=db.schema), dcm)]
         ns = schema
+        if cor != "subst":      # the other object is a whole cycle of its own: log / EXCEPTION batches around the data
+            from vgi_rpc.log import Message
+            from vgi_rpc.metadata import encode_metadata
+
+            def lb(level, text):
+                empty = pa.RecordBatch.from_arrays([pa.array([], f.type) for f in schema], schema=schema)
+                return empty, encode_metadata(Message(level, text, origin="storage").add_to_metadata())
+
+            if cor == "subst_logs":
+                nb = [lb(Level.WARN if variant % 2 else Level.INFO, f"{FORGED} note {variant}"), nb[0],
+                      lb(Level.INFO, f"{FORGED} trailer {variant}")]
+            else:
+                nb = [lb(Level.EXCEPTION, f"{FORGED} failure {variant}"), nb[0]]
     elif cor in ("nested_before", "nested_after", "nested_only"):
         ptr = pa.RecordBatch.from_arrays([pa.array([], f.type) for f in schema], schema=schema)
         pmd = {LOCATION_KEY: b"https://store.test/bucket/o1?X-Sig=loop"}
@@ -324,6 +339,8 @@ def rewrite_pointer(wire: bytes, psha: str, new_raw: bytes | None) -> bytes:
 # ---------------------------------------------------------------------------------------------- one case
 def _why(exc: BaseException) -> str:
     s = str(exc)
+    if FORGED in s or FORGED in repr(getattr(exc, "args", "")):
+        return "forged_error"
     for key, why in (("SHA-256 checksum mismatch", "sha"), ("Failed to decompress", "decode"),
                      ("Redirect loop detected", "loop"), ("No data batch", "nodata"),
                      ("Multiple data batches", "multi"), ("Schema mismatch", "schema")):
@@ -440,7 +457,7 @@ def run_case(world: _World, case: dict, variant: int, rng: random.Random) -> tup
     # -- consume
     def on_log(m) -> None:
         got_logs.append(m)
-        log.append({"e": "log"})
+        log.append({"e": "log", "forged": FORGED in m.message})
 
     try:
         if kind == "header":
@@ -587,7 +604,7 @@ def run_e2e(world: _World, case: dict, variant: int, rng: random.Random) -> tupl
     if ups:
         log.append({"e": "upload", "enc": ups[0][1] or "none"})
         log.append({"e": "tamper", "cor": effective["cor"], "psha": "kept"})
-    log += [{"e": "log"}] * len(got_logs)
+    log += [{"e": "log", "forged": FORGED in m.message} for m in got_logs]
     if err is None:
         log.append({"e": "deliver", "what": "D" if got == ref else "O", "logs": len(got_logs),
                     "logs_ok": _logs_key(got_logs) == _logs_key(inline_logs)})
